@@ -161,10 +161,14 @@ func sortStrings(s []string) {
 type credFn func(tag string, now time.Time) *reqCase
 
 func rlBase(tag string) *reqCase {
-	return &reqCase{Method: "POST", Target: rlRoute, Body: []byte(`{"probe":"` + tag + `"}`), Hdrs: []hdr{{"Content-Type", "application/json"}}}
+	return &reqCase{Method: "POST", Target: rlRoute, Body: []byte(`{"probe":"` + tag + `"}`), Hdrs: []hdr{{"Content-Type", "application/json"}}, Probe: true}
 }
 
 func noCred(tag string, _ time.Time) *reqCase { return rlBase(tag) }
+
+// Probe (completeness is demanded when the reference accepts) is set on plain credentials only: for HMAC the harness
+// demands completeness at clock = signed timestamp, not for a stale timestamp (the replay protection may refuse
+// timestamps older than what it can vouch for after a reload widened the tolerance: fail-closed, not a violation).
 
 func basicCred(user, pass string) credFn {
 	return func(tag string, _ time.Time) *reqCase {
@@ -186,6 +190,7 @@ func apiKeyCred(key string) credFn {
 func hmacCred(cfg *hmacCfg, key string, age time.Duration) credFn {
 	return func(tag string, now time.Time) *reqCase {
 		c := rlBase(tag)
+		c.Probe = age == 0
 		ts := strconv.FormatInt(now.Add(-age).Unix(), 10)
 		c.Hdrs = append(c.Hdrs, hdr{cfg.SigH, sign([]byte(key), ts, c.Method, rlRoute, c.Body)}, hdr{cfg.TsH, ts}, hdr{cfg.NonceH, "n-" + tag})
 		return c
@@ -320,6 +325,8 @@ func (w *rlWorld) send(where string, c *reqCase, m authModel) int {
 		w.fail(where, "queue-touched", fmt.Sprintf("a request that does not authenticate was answered %d but the queue changed: before{%s} after{%s}", rec.Code, before.stats, after.stats))
 	case !ref && !intIn(m.refusal(c), rec.Code):
 		w.fail(where, "status-"+itoa(rec.Code), fmt.Sprintf("a request that does not authenticate was answered %d, the statement assigns %v", rec.Code, m.refusal(c)))
+	case ref && rec.Code != http.StatusAccepted && !c.Probe:
+		w.n["ref_accepts_impl_rejects"]++ // allowed: the property is one-directional
 	case ref && rec.Code != http.StatusAccepted:
 		// completeness probe: the plain valid credential of the configuration in force, clock = signed timestamp
 		w.n["completeness_probes"]++
@@ -576,6 +583,9 @@ func runReloadSched(t *testing.T, r *runner.Run) {
 			sc, v := sc, v
 			name := "reload/" + sc.name + "/" + v.String()
 			bound := runner.Pick(r, 2, 3)
+			if b := os.Getenv("C08_BOUND"); b != "" {
+				bound, _ = strconv.Atoi(b)
+			}
 			if len(v.ovl) > 1 {
 				bound = 2
 			}
